@@ -151,6 +151,23 @@ func TestC11(t *testing.T) {
 			c.Sig(fmt.Sprintf("file|w%d|d%d|spine%v|shared=%v", fc.Width, depth, spine, shared), links >= 1)
 		})
 	}
+	if !r.Quick() {
+		// a file of 2^32+1 bytes (streamed zeros): byte counts must not wrap at 32 bits
+		r.Case("file/huge-zero-stream", map[string]any{"len": int64(1)<<32 + 1, "width": 2, "chunker": "size-1048576"}, func(c *mon.Case) {
+			st := store.New()
+			var l ipld.Link
+			var sz uint64
+			var err error
+			withWidth(2, func() { l, sz, err = builder.BuildUnixFSFile(&zeroReader{left: 1<<32 + 1}, "size-1048576", st.LinkSystem(false)) })
+			if err != nil {
+				c.Violation("C11|build-error", "%v", err)
+				return
+			}
+			links, shared := checkSizes(c, st, linkCid(l), sz, "file of 2^32+1 zero bytes")
+			c.Count("dags_ge_2e32_bytes", 1)
+			c.Sig(fmt.Sprintf("file|huge|shared=%v", shared), links >= 1)
+		})
+	}
 	// directories over real children (true Tsize by construction)
 	for i := 0; i < r.Pick(100, 2000); i++ {
 		i := i
